@@ -14,7 +14,9 @@ fn token_types() -> Vec<usize> {
 }
 
 fn transition_sets() -> Vec<Vec<(usize, usize)>> {
-    vec![vec![], vec![(0, 1)], vec![(1, 0), (5, 2)], vec![(1, 2), (2, 1)], vec![(0, 2), (1, 1), (65_536, 0)], vec![(u32::MAX as usize, usize::MAX)]]
+    vec![vec![], vec![(0, 1)], vec![(1, 0), (5, 2)], vec![(1, 2), (2, 1)], vec![(0, 2), (1, 1), (65_536, 0)], vec![(u32::MAX as usize, usize::MAX)],
+        // token types whose decimal texts sort differently from their values
+        vec![(9, 1), (10, 2)], vec![(2, 1), (10, 0), (100, 2), (1_000, 1)]]
 }
 
 fn las() -> Vec<Option<(bool, String)>> {
@@ -203,7 +205,7 @@ pub fn run(tier: Tier) -> ! {
         total.samples.merge(a.samples);
     }
     let mut fams = vec![
-        json!({"family": "one mode, one pattern: mode name x pattern string (12 special strings each) x token type {0,1,65535,65536,u32::MAX,usize::MAX} x lookahead {none, positive, negative} x 12 strings x 6 transition lists (targets ascending, descending, mixed)", "configurations": n1, "exhaustive": true}),
+        json!({"family": "one mode, one pattern: mode name x pattern string (12 special strings each) x token type {0,1,65535,65536,u32::MAX,usize::MAX} x lookahead {none, positive, negative} x 12 strings x 8 transition lists (targets ascending, descending, mixed; token types of different digit counts)", "configurations": n1, "exhaustive": true}),
         json!({"family": "1..2 modes, 0..2 patterns: every (pattern string, lookahead option) combined with three second patterns; empty mode list", "configurations": n12 - n1, "exhaustive": true}),
         json!({"family": "every string of one ASCII character (128) and of two printable ASCII characters (95^2) as positive lookahead, as negative lookahead, and as pattern + mode name", "configurations": n3, "exhaustive": true}),
     ];
